@@ -75,7 +75,8 @@ class Fold:
       events:  list of dict(kind='call'|'store', callee/target, obj, args, guards, node)
     """
 
-    def __init__(self, func, call=None, atom=None, record_calls=None, inline=None):
+    def __init__(self, func, call=None, atom=None, record_calls=None, inline=None, opaque_types=None):
+        self.opaque_types = opaque_types      # regex: locals of these types stay named atoms (not folded)
         self.f = func
         self.call_hook = call
         self.atom_hook = atom
@@ -136,6 +137,8 @@ class Fold:
     def ev_ref(self, n, env):
         dk = n.get("dk")
         if dk in ("local", "param", "staticlocal", "binding"):
+            if self.opaque_types and re.search(self.opaque_types, n.get("type") or ""):
+                return S(n["name"])
             if n.get("decl") in env:
                 return env[n["decl"]]
             return self.atom_for(n, env)
@@ -520,8 +523,12 @@ class Fold:
         return self
 
     def stmts(self, lst, env):
-        for s in lst:
-            self.stmt(s, env)
+        mark = len(self.guards)
+        try:
+            for s in lst:
+                self.stmt(s, env)
+        finally:
+            del self.guards[mark:]      # sticky guards of early exits end with the enclosing block
 
     def stmt(self, s, env):
         if s is None:
@@ -580,19 +587,20 @@ class Fold:
             return
         e1, e2 = env.copy(), env.copy()
         t1 = t2 = False
+        mark = len(self.guards)
         self.guards.append((c, True, s))
         try:
             self.stmt(s["then"], e1)
         except Terminated:
             t1 = True
-        self.guards.pop()
+        del self.guards[mark:]
         self.guards.append((c, False, s))
         try:
             if s.get("else"):
                 self.stmt(s["else"], e2)
         except Terminated:
             t2 = True
-        self.guards.pop()
+        del self.guards[mark:]
         if t1 and t2:
             raise Terminated()
         if t1:
@@ -723,6 +731,7 @@ class Fold:
         cond = None
         if s.get("cond") is not None and k != "do":
             cond = self.ev(s["cond"], benv)
+        mark = len(self.guards)
         self.guards.append((("loop", lid, cond), True, s))
         try:
             self.stmt(s["body"], benv)
@@ -730,7 +739,7 @@ class Fold:
                 self.ev(s["inc"], benv)
         except Terminated:
             pass
-        self.guards.pop()
+        del self.guards[mark:]
         # accumulation idioms
         for key, (old, a) in start.items():
             new = benv.get(key)
@@ -756,6 +765,11 @@ class Fold:
         term = sp.expand(new - a)
         if not term.has(a):
             return old + F("SUM_" + lid)(term)
+        # guarded accumulation: ite(c, a + t, a)  ->  old + SUM(ite(c, t, 0))
+        if str(new.func) == "ite" and len(new.args) == 3 and new.args[2] == a:
+            t = sp.expand(new.args[1] - a)
+            if not t.has(a):
+                return old + F("SUM_" + lid)(F("ite")(new.args[0], t, 0))
         # max idiom:  ite(e > acc, e, acc)
         if new.func == F("ite") or str(new.func) == "ite":
             return F("LOOP_" + lid)(self.scalarize(old), new.subs(a, S("acc")))
@@ -782,6 +796,7 @@ class Fold:
         all_term = True
         for g in groups:
             e = env.copy()
+            mark = len(self.guards)
             self.guards.append((("switch", c, tuple(map(str, g["labels"]))), True, s))
             try:
                 self.stmts(g["stmts"], e)
@@ -792,7 +807,7 @@ class Fold:
                 if g["stmts"] and g["stmts"][-1].get("k") == "break":
                     all_term = False
                     envs.append(e)
-            self.guards.pop()
+            del self.guards[mark:]
         has_default = any("default" in g["labels"] for g in groups)
         if not has_default:
             envs.append(env.copy())
